@@ -57,10 +57,6 @@ def product_cases(rng, tier):
         m = base["mask"]
         if m["k"] == "slice" and m["s"][2] not in (-997, 1):
             base["mask"] = C.NONE
-        if m["k"] == "pos":
-            # (repeated / out-of-order positions on chunked keys: known finding of C05)
-            p = sorted({x + n if x < 0 else x for x in m["p"]})
-            base["mask"] = {"k": "pos", "p": p}
         if NULL in vals and EMB[base["emb"]].kind in "mM":
             pass
         # labels "identical" under every strategy includes their order: first appearance when sort=False
@@ -164,7 +160,7 @@ def chunked_cases(rng, tier):
         elif mk < 0.9:
             m = {"k": "slice", "s": [rng.pick([NONE] + list(range(-n - 2, n + 3))), rng.pick([NONE] + list(range(-n - 2, n + 3))), rng.pick([NONE, 1])]}
         else:
-            m = {"k": "pos", "p": sorted(rng.sample(range(n), rng.randrange(0, n)))}
+            m = {"k": "pos", "p": [rng.randrange(-n, n) for _ in range(rng.randrange(0, n + 2))]}       # repeats, any order, from the end
         op = rng.pick(ops)
         emb = rng.pick(["f64", "i64", "u8", "i32"]) if op != "size" else "f64"
         vals = [rng.pick([NULL, 1, 2, 3]) if emb == "f64" else rng.pick([1, 2, 3]) for _ in range(n)]
